@@ -239,3 +239,29 @@ func (c *Ctx) inRegion(anchor string, g *core.Func) bool {
 	}
 	return false
 }
+
+// heredocReader returns the function that reads here-document bodies: the
+// declared function of the parser's lexer that takes the pending redirections
+// with heredoc.pop().  (By name it was lexHeredoc in the reference tree; the
+// role is what the rules are about.)
+func (c *Ctx) heredocReader(rr *core.RuleResult) *core.Func {
+	pop := c.fn("parser.(*heredoc).pop")
+	if pop != nil {
+		var found *core.Func
+		for _, f := range c.funcsOfPkg("parser", false) {
+			if f.Decl == nil || f == pop {
+				continue
+			}
+			if len(c.callsTo(f, pop)) > 0 && found == nil {
+				found = f
+			}
+		}
+		if found != nil {
+			return found
+		}
+	}
+	if rr == nil {
+		return c.fn("parser.(*lexer).lexHeredoc")
+	}
+	return c.mustFn(rr, "parser.(*lexer).lexHeredoc")
+}
